@@ -1,5 +1,6 @@
 import Drivers.PenShow
 import DimodModel.Generators
+import DimodModel.Generators2
 import DimodModel.RandomGen
 open Wire Pen PenShow Gen
 
@@ -19,6 +20,12 @@ open Wire Pen PenShow Gen
     rnd gnm <vt> <labels> <num_interactions> <stream>
     rnd gnp <vt> <labels> <p> <stream>
     rnd knap <n> <ratio> <stream> | rnd mknap <n> <bins> <stream> | rnd binp <n> <capacity> <stream>
+    qknap <capacity> <values> <weights> <profits>          profits: rows separated by ";", "-" = no rows
+    qmknap <values> <weights> <capacities> <profits>
+    kmcsat <k> <labels> <clauses>                          clauses: idx:sign+idx:sign+... separated by ','
+    qap <distance rows> <flow rows>
+    bpsp <car labels>
+    msq <size> <power>                                     constraint expressions shown without self-loop folding
 -/
 
 def kindOf? (s : String) : Option GateKind :=
@@ -45,6 +52,28 @@ def showGCqm (q : GCqm) : String :=
   let cons := q.cons.map fun c =>
     s!"{toHex c.label}:{senseName c.sense}:{showRat c.rhs}:" ++ showBq ((Bq.empty .binary : Bq Label).apply c.lhs) false
   s!"ok {vars}|{showBq ((Bq.empty .binary : Bq Label).apply q.obj) false}|" ++ String.intercalate "|" cons
+
+def parseMatrix (s : String) : Option (List (List Rat)) :=
+  if s = "-" then some [] else (s.splitOn ";").mapM parseRats
+
+def parseClauses (s : String) : Option (List Clause) :=
+  (csv s).mapM fun c => (c.splitOn "+").mapM fun l =>
+    match l.splitOn ":" with
+    | [i, sg] => do let i ← i.toNat?; let sg ← sg.toInt?; pure (i, sg)
+    | _ => none
+
+/-- a bag as an INTEGER-variable expression: squares stay quadratic self-loops; every touched variable is listed -/
+def showRawBag (bag : List (PTerm Label)) : String :=
+  let st := bag.foldl (fun (st : List (Label × Rat) × List ((Label × Label) × Rat) × Rat) t =>
+    match t with
+    | .const c => (st.1, st.2.1, st.2.2 + c)
+    | .lin v c => (addKey st.1 v c, st.2.1, st.2.2)
+    | .quad u v c => (addKey (addKey st.1 u 0) v 0, addPair st.2.1 u v c, st.2.2)) (([] : List (Label × Rat)), ([] : List ((Label × Label) × Rat)), (0 : Rat))
+  showBq { vt := .binary, lin := st.1, quad := st.2.1, off := st.2.2 } false
+
+def showRawCqm (q : GCqm) : String :=
+  let cons := q.cons.map fun c => s!"{toHex c.label}:{senseName c.sense}:{showRat c.rhs}:" ++ showRawBag c.lhs
+  "ok " ++ String.intercalate "|" cons
 
 def answer (line : String) : String :=
   match line.trimAscii.toString.splitOn " " with
@@ -98,6 +127,48 @@ def answer (line : String) : String :=
       | some q => showGCqm q
       | none => "err"
     | _, _, _ => "bad-op"
+  | ["qknap", cap, values, weights, profits] =>
+    match parseRat? cap, parseRats values, parseRats weights, parseMatrix profits with
+    | some cap, some values, some weights, some profits =>
+      match quadraticKnapsack values weights profits cap with
+      | some q => showGCqm q
+      | none => "err"
+    | _, _, _, _ => "bad-op"
+  | ["qmknap", values, weights, caps, profits] =>
+    match parseRats values, parseRats weights, parseRats caps, parseMatrix profits with
+    | some values, some weights, some caps, some profits =>
+      match quadraticMultiKnapsack values weights profits caps with
+      | some q => showGCqm q
+      | none => "err"
+    | _, _, _, _ => "bad-op"
+  | ["kmcsat", k, labels, clauses] =>
+    match k.toNat?, parseLabels labels, parseClauses clauses with
+    | some k, some labels, some clauses =>
+      match kmcsat labels k clauses with
+      | some bag => showBag .spin bag
+      | none => "err"
+    | _, _, _ => "bad-op"
+  | ["qap", d, f] =>
+    match parseMatrix d, parseMatrix f with
+    | some d, some f =>
+      match quadraticAssignment d f with
+      | some q => showGCqm q
+      | none => "err"
+    | _, _ => "bad-op"
+  | ["bpsp", cars] =>
+    match parseLabels cars with
+    | some cars =>
+      match bpsp cars with
+      | some bag => showBag .spin bag
+      | none => "err"
+    | none => "bad-op"
+  | ["msq", n, power] =>
+    match n.toNat?, power.toNat? with
+    | some n, some power =>
+      match magicSquare n power with
+      | some q => showRawCqm q
+      | none => "err"
+    | _, _ => "bad-op"
   | ["binp", cap, weights] =>
     match parseRat? cap, parseRats weights with
     | some cap, some weights => showGCqm (binPacking weights cap)
